@@ -1,6 +1,260 @@
 import RV.Json
+import RV.Drv.RolloutSM
+import RV.Drv.Executor
+import RV.Model.Wakeup
+import RV.Oracle.Wakeup
 namespace RV.Drv.Wakeup
-open Lean RV
-/-- stub: replaced by the slice that owns this suite -/
-def handle : Handler := fun _ _ _ => .error "suite not built yet"
+open Lean RV RV.Wakeup RV.Oracle.Wakeup
+
+def refOfJson (j : Json) : R Ref := do
+  return { apiVersion := ← fStr j "apiVersion", kind := ← fStr j "kind", name := ← fStr j "name" }
+
+def objOfJson (j : Json) : R Obj := do
+  return { ns := ← fStr j "ns", name := ← fStr j "name", ref := ← refOfJson (← jget j "ref") }
+
+def gvkOfJson (j : Json) : R GVK := do
+  return { group := ← fStr j "group", version := ← fStr j "version", kind := ← fStr j "kind" }
+
+def controlOfJson (j : Json) : R Control := do
+  match ← fStr j "c" with
+  | "absent" | "" => return .absent
+  | "empty" => return .empty
+  | "badSyntax" => return .badSyntax
+  | "partialRef" => return .partialRef (← fStr j "apiVersion") (← fStr j "kind")
+  | "ref" => return .ref (← fStr j "apiVersion") (← fStr j "kind") (← fStr j "name")
+  | c => .error s!"control {c}"
+
+def statusOfJson (j : Json) : R WlStatus := do
+  return { replicas := ← fInt j "replicas", ready := ← fInt j "ready", available := ← fInt j "available", updated := ← fInt j "updated",
+           updatedReady := ← fInt j "updatedReady", observedGeneration := ← fInt j "observedGeneration",
+           updateRevision := ← fStr j "updateRevision", stableRevision := ← fStr j "stableRevision" }
+
+def tyOfJson (j : Json) : R WlType := do
+  match ← fStr j "ty" with
+  | "CloneSet" => return .cloneSet
+  | "DaemonSet" => return .daemonSet
+  | "Deployment" => return .deployment
+  | "StatefulSet" => return .nativeSts
+  | "AdvStatefulSet" => return .advSts
+  | "ReplicaSet" => return .replicaSet
+  | "Unstructured" =>
+    match jopt j "gvk" with
+    | some g => return .unstructured (← gvkOfJson g)
+    | none => return .unstructured ⟨"", "", ""⟩
+  | t => .error s!"workload type {t}"
+
+def wlOfJson (j : Json) : R Wl := do
+  return { ty := ← tyOfJson j, ns := ← fStr j "ns", name := ← fStr j "name", rv := ← fStr j "rv", generation := ← fInt j "generation",
+           status := ← statusOfJson (← jget j "status"), control := ← controlOfJson (← jget j "control") }
+
+def ownerOfJson (j : Json) (k : String) : R (Option OwnerRef) :=
+  match jopt j k with
+  | none => pure none
+  | some o => do return some { apiVersion := ← fStr o "apiVersion", kind := ← fStr o "kind", name := ← fStr o "name" }
+
+def storeOfJson (j : Json) : R StoreObj := do
+  return { gvk := ← gvkOfJson (← jget j "gvk"), ns := ← fStr j "ns", name := ← fStr j "name", owner := ← ownerOfJson j "owner",
+           inProgress := ← fBool j "inProgress", control := ← controlOfJson (← jget j "control") }
+
+def readyOf : String → Ready
+  | "true" => .condTrue
+  | "false" => .condFalse
+  | _ => .noCond
+
+def podOfJson (j : Json) : R Pod := do
+  return { ns := ← fStr j "ns", name := ← fStr j "name", rv := ← fStr j "rv", depHash := ← fStr j "depHash", revHash := ← fStr j "revHash",
+           ready := readyOf (← fStr j "ready"), owner := ← ownerOfJson j "owner", inProgress := ← fBool j "inProgress" }
+
+def pairOfJson (j : Json) : R (String × String) := do
+  match ← jarr j with
+  | [a, b] => return (← jstr a, ← jstr b)
+  | _ => .error "annotation pair"
+
+def brMetaOfJson (j : Json) : R BrMeta := do
+  let annos ← (match jopt j "annos" with
+    | none => pure none
+    | some a => do pure (some (← (← jarr a).mapM pairOfJson)))
+  return { ns := ← fStr j "ns", name := ← fStr j "name", generation := ← fInt j "generation", deleting := ← fBool j "deleting", annos := annos }
+
+def keyStr (k : Key) : String := k.ns ++ "/" ++ k.name
+
+def keyOfStr (s : String) : Key :=
+  match s.splitOn "/" with
+  | [a, b] => ⟨a, b⟩
+  | _ => ⟨"?", s⟩
+
+/-- the work queue is a set; the harness reports it sorted -/
+def canonKeys (ks : List Key) : List String :=
+  let ss := ks.map keyStr
+  let sorted := ss.mergeSort (fun a b => decide (a ≤ b))
+  sorted.eraseDups
+
+def keysJson (ks : List Key) : Json := mkObj [("keys", arrJ ((canonKeys ks).map strJ))]
+
+def enqJson : EnqOut → R Json
+  | .keys ks => pure (keysJson ks)
+  | .panic => pure (mkObj [("panic", strJ "?")])
+  | .loop => .error "owner references form a cycle"
+
+def implKeys (impl : Json) : R (Option (List Key)) :=
+  match jopt impl "keys" with
+  | none => pure none
+  | some a => do return some ((← (← jarr a).mapM jstr).map keyOfStr)
+
+def handle : Handler := fun op inp impl => do
+  match op with
+  | "ro" | "br" | "tr" =>
+    let rs ← (← fArrD inp "rollouts").mapM objOfJson
+    let brs ← (← fArrD inp "brs").mapM objOfJson
+    let store ← (← fArrD inp "store").mapM storeOfJson
+    let listErr ← fBool inp "listErr"
+    let getErr ← fBool inp "getErr"
+    let ev ← jget inp "ev"
+    let t ← fStr ev "t"
+    let k ← fStr ev "k"
+    let ik ← implKeys impl
+    let baseTags := [s!"ctl:{op}", s!"ev:{k}/{t}"] ++ (if listErr then ["listErr"] else []) ++ (if getErr then ["getErr"] else [])
+    let nTag (ks : List Key) := s!"enq:{(canonKeys ks).length}"
+    match k with
+    | "rollout" | "tr" =>
+      let m ← jget ev "ro"
+      let ns ← fStr m "ns"
+      let name ← fStr m "name"
+      let out := if op == "tr" then trEnqueue ns name else
+        roEnqueue (match t with | "create" => .roCreate ns name | "update" => .roUpdate ns name | _ => .roDelete ns name) rs listErr
+      let holds := match ik with
+        | some keys => [("C07.own_object_wakes", keys == [⟨ns, name⟩])]
+        | none => [("C07.handler_no_panic", false)]
+      return { model := keysJson out, holds := holds, tags := baseTags ++ [nTag out] }
+    | "br" =>
+      let b ← brMetaOfJson (← jget ev "br")
+      let old ← (match jopt ev "brOld" with | some o => brMetaOfJson o | none => pure b)
+      if op == "ro" then
+        let e : RoEvent := match t with | "create" => .brCreate b | "update" => .brUpdate old b | _ => .brDelete b
+        let out := roEnqueue e rs listErr
+        let holds := match ik with
+          | some keys => [("C07.br_update_wakes_rollout", roBrEvent t b keys)]
+          | none => [("C07.handler_no_panic", false)]
+        return { model := keysJson out, holds := holds, tags := baseTags ++ [nTag out] }
+      else
+        let e : BrEvent := match t with | "create" => .brCreate b | "update" => .brUpdate old b | _ => .brDelete b
+        let out := brEnqueue e brs store listErr getErr
+        let holds := match ik with
+          | some keys =>
+            if t == "update" then [("C07.br_spec_change_wakes_br", brSpecChangeWakes old b keys), ("C07.br_status_only_silent", brStatusOnlySilent old b keys)]
+            else [("C07.own_object_wakes", keys == [⟨b.ns, b.name⟩])]
+          | none => [("C07.handler_no_panic", false)]
+        let cls := if t == "update" then
+            [if old.generation ≠ b.generation then "br:generation" else if b.deleting then "br:deleting"
+             else if old.annos ≠ b.annos then "br:annotations" else "br:status-only"] else []
+        return { model := ← enqJson out, holds := holds, tags := baseTags ++ cls ++ (match out with | .keys ks => [nTag ks] | _ => ["enq:panic"]) }
+    | "wl" =>
+      let o ← wlOfJson (← jget ev "wl")
+      let old ← (match jopt ev "wlOld" with | some x => wlOfJson x | none => pure o)
+      let ctlTag := match o.control with
+        | .absent => "control:absent" | .empty => "control:empty" | .badSyntax => "control:badSyntax"
+        | .partialRef .. => "control:partialRef" | .ref .. => if (controlledBy o.control).isSome then "control:this-kind" else "control:foreign"
+      if op == "ro" then
+        let e : RoEvent := match t with | "create" => .wlCreate o | "update" => .wlUpdate old o | _ => .wlDelete o
+        let out := roEnqueue e rs listErr
+        let holds := match ik with
+          | some keys => [("C07.foreign_event_ignored", roFrame rs o keys), ("C07.workload_event_wakes_rollout", roOwnerWoken rs listErr o keys)]
+          | none => [("C07.handler_no_panic", false)]
+        let nOwn := match schemeKind o.ty with | some g => (owners rs o.ns o.name g).length | none => 0
+        return { model := keysJson out, holds := holds, tags := baseTags ++ [nTag out, s!"owners:{nOwn}", s!"candidates:{rs.length}"] }
+      else
+        let e : BrEvent := match t with | "create" => .wlCreate o | "update" => .wlUpdate old o | _ => .wlDelete o
+        let out := brEnqueue e brs store listErr getErr
+        let implPanic := (jopt impl "panic").isSome
+        let holds := match ik with
+          | some keys => [("C07.foreign_event_ignored", brFrame brs o keys)] ++
+              (if t == "update" then [("C07.workload_progress_wakes_br", wlProgressWakes old o keys)] else [])
+          | none => [("C07.handler_no_panic", implPanic && o.ty == .replicaSet)]
+        let nOwn := match switchKind o.ty with | some g => (owners brs o.ns o.name g).length | none => 0
+        let prog := if t == "update" then [if wlProgressed old o then "wl:progressed" else "wl:no-progress"] else []
+        return { model := ← enqJson out, holds := holds,
+                 tags := baseTags ++ [ctlTag, s!"owners:{nOwn}", s!"candidates:{brs.length}"] ++ prog ++ (match out with | .keys ks => [nTag ks] | _ => ["enq:panic"]) }
+    | "pod" =>
+      let p ← podOfJson (← jget ev "pod")
+      let old ← (match jopt ev "podOld" with | some x => podOfJson x | none => pure p)
+      let e : BrEvent := match t with | "create" => .podCreate p | "update" => .podUpdate old p | _ => .podDelete p
+      let out := brEnqueue e brs store listErr getErr
+      let top := podTop store getErr p
+      let topTag := match p.owner, top with
+        | none, _ => "pod:no-owner"
+        | _, .obj _ c => if (controlledBy c).isSome then "pod:controlled" else "pod:top-uncontrolled"
+        | _, .nil => "pod:unsupported-owner" | _, .err => "pod:get-error" | _, .loop => "pod:loop"
+      let holds := match ik with
+        | some keys => [("C07.foreign_event_ignored", podFrame p keys)] ++
+            (if t == "update" then [("C07.pod_ready_wakes_br", podWakes store getErr old p keys)] else [])
+        | none => [("C07.handler_no_panic", false)]
+      let chg := if t == "update" then [if podChanged old p then "pod:changed" else "pod:unchanged"] else []
+      return { model := ← enqJson out, holds := holds, tags := baseTags ++ [topTag] ++ chg ++ (match out with | .keys ks => [nTag ks] | _ => ["enq:loop"]) }
+    | _ => .error s!"wakeup: unknown event family {k}"
+  | "ro-step" =>
+    let w ← RV.Drv.RolloutSM.worldOfJson inp
+    if (jopt impl "panic").isSome then return { holds := [], tags := ["step:ro", "step:panic", "trivial"] } else
+    let requeue ← fBool impl "requeue"
+    let err ← fBool impl "err"
+    let gone ← fBool impl "roGone"
+    let eventWoke ← fBool impl "eventWoke"
+    -- a negative RequeueAfter: the reconcile computed a recheck time that has already passed; controller-runtime drops it
+    let negRequeue := match jopt impl "negRequeueAfter" with | some (.bool b) => b | _ => false
+    let woken := requeue || err || eventWoke
+    let cls := roAwaits w
+    let modelWoke := match RV.RolloutSM.reconcile w with | .val r => (roWakes w r).ro | .panic => false
+    let clsTag := match cls with | some c => s!"{repr c}" | none => "none"
+    return { holds := [("C07.no_lost_wakeup", roStepOk w woken gone), ("C07.wake_model_sound", !modelWoke || woken || gone),
+                       ("C07.requeue_after_not_negative", !negRequeue)],
+             tags := ["step:ro", if woken then "step:woken" else if gone then "step:gone" else s!"step:rests={clsTag}"] ++
+               (if requeue then ["woke:requeue"] else []) ++ (if err then ["woke:err"] else []) ++ (if eventWoke then ["woke:event"] else []) ++
+               (if roIllFormed w then ["step:ill-formed"] else []) ++
+               (if w.ro.hasTraffic && w.ro.grace == 0 then ["grace:0"] else if w.ro.hasTraffic then ["grace:default"] else ["grace:none"]) ++
+               (if w.ro.realPartition then [] else ["wk:canaryStyle"]) }
+  | "br-step" =>
+    let br ← RV.Drv.Executor.brOfJson (← jget inp "br")
+    let wl ← (match jopt inp "wl" with | none => pure none | some x => do pure (some (← RV.Drv.Executor.wlOfJson x)))
+    if (jopt impl "panic").isSome then return { holds := [], tags := ["step:br", "step:panic", "trivial"] } else
+    let requeue ← fBool impl "requeue"
+    let err ← fBool impl "err"
+    let eventWoke ← fBool impl "eventWoke"
+    let woken := requeue || err || eventWoke
+    let post ← (match jopt impl "br" with
+      | none => pure none
+      | some b => do
+        let st ← RV.Drv.Executor.statusOfJson (← jget b "status")
+        pure (some { br with hasFinalizer := ← fBool b "hasFinalizer", status := st }))
+    let wl' ← (match jopt impl "wl" with | none => pure none | some x => do pure (some (← RV.Drv.Executor.wlOfJson x)))
+    let modelWoke := match RV.Executor.reconcile br wl with | .val o => (brWakes br wl o).br | .panic => false
+    let clsTag := match post with
+      | none => "gone"
+      | some b => (match brAwaits b wl' with | some c => s!"{repr c}" | none => "none")
+    return { holds := [("C07.no_lost_wakeup", brStepOk post wl' woken), ("C07.wake_model_sound", !modelWoke || woken || post.isNone)],
+             tags := ["step:br", if woken then "step:woken" else s!"step:rests={clsTag}"] ++
+               (if requeue then ["woke:requeue"] else []) ++ (if err then ["woke:err"] else []) ++ (if eventWoke then ["woke:event"] else []) }
+  | "quiescent" =>
+    -- the event-driven closed loop has nothing pending: judge the state it stopped in
+    let ex ← fBool inp "exists"
+    let terminal ← fBool inp "terminal"
+    let roCls ← (if ex then do pure (roAwaits (← RV.Drv.RolloutSM.worldOfJson (← jget inp "w"))) else pure none)
+    let (brEx, brCls) ← (match jopt inp "ex" with
+      | none => pure (false, none)
+      | some e => do
+        let br ← RV.Drv.Executor.brOfJson (← jget e "br")
+        let wl ← (match jopt e "wl" with | none => pure none | some w => do pure (some (← RV.Drv.Executor.wlOfJson w)))
+        pure (true, brAwaits br wl))
+    let ok := if ex then idleOk roCls brEx brCls else (!brEx || brCls.isSome)
+    let showR (o : Option RoWait) := match o with | some c => s!"{repr c}" | none => "none"
+    let showB (o : Option BrWait) := match o with | some c => s!"{repr c}" | none => if brEx then "none" else "absent"
+    return { holds := [("C07.no_lost_wakeup", ok)],
+             tags := [s!"idle:ro={showR roCls}", s!"idle:br={showB brCls}", if terminal then "idle:terminal" else "idle:waiting"] }
+  | "evrun" =>
+    let done ← fBool impl "done"
+    let stuck ← fBool impl "stuck"
+    let steps ← fNat impl "reconciles"
+    let n ← fNat inp "steps"
+    return { holds := [("C07.event_driven_terminates", done && !stuck), ("C07.event_driven_budget", decide (steps ≤ 60 * (n + 4)))],
+             tags := [if done then "evrun:done" else "evrun:notdone", s!"evrun:plan={← fStr inp "plan"}"] }
+  | _ => .error s!"wakeup: unknown op {op}"
+
 end RV.Drv.Wakeup
